@@ -4,7 +4,10 @@ Decided by TLC on spec/ABY3Priv.tla over compiled graphs exported from the real 
 for every observer and every class of inputs the observer must not distinguish (same own/public
 inputs, same own output) the BAGS of its views over all idealised tapes are equal -- exact equality of
 distributions, for bit-typed graphs and for the Z_2 (and, within budget, Z_4) homomorphic image of
-ring-only graphs.
+ring-only graphs.  The protocols outside that budget (A2B, B2A, Truncate, comparisons, sort) are run at their real
+widths by the harness as three parties on the real evaluator, the observer's randomness fixed and everybody else's
+fresh, and TLC (spec/DetLeakTrace.tla) checks deterministic-leak freedom, a consequence of Private, on every
+value of the observer's store.
 """
 from . import lib, progs, mpc_common as mc
 
@@ -56,6 +59,25 @@ def run(chk):
             chk.violation(sig, {"job": {k: bad[k] for k in ("id", "name", "owners", "outs", "mode")},
                                 "observer": obs, "class": mc.last_state(res.trace, "cls"), "tlc": res.trace[-4000:], "ring": ring})
             rs = [r for r in rs if r is not bad]
+    # --- real widths, real evaluator: deterministic-leak freedom (a consequence of Private) on the protocols whose
+    # tape space cannot be enumerated; TLC (spec/DetLeakTrace.tla) judges every record
+    from . import detleak
+    js, drecs, leaks, dfailed, masked = detleak.run(chk)
+    chk.traces += len(drecs)
+    chk.note("wide_detleak_records", len(drecs))
+    chk.note("wide_detleak_runs_per_record", 2 * detleak.RUNS[tier])
+    chk.note("wide_detleak_programs", sorted({j["name"] for j in js if j["family"] == "core"}))
+    chk.note("wide_detleak_random_programs", len({j["name"] for j in js if j["family"] == "rand"}))
+    chk.note("wide_detleak_rejected_by_compiler", dfailed[:10])
+    chk.note("wide_detleak_records_without_masked_values", sum(1 for i in range(1, len(drecs) + 1) if masked.get(i, 0) == 0))
+    chk.note("wide_detleak_store_values_compared", sum(r["nodes"] for r in drecs))
+    byid = {j["id"]: j for j in js}
+    for r, nodes in leaks:
+        job = byid[r["id"]]
+        sig = {"phase": "wide", "program": r["name"], "owners": r["owners"], "observer": r["observer"]}
+        chk.violation(sig, {"job": job, "leaking_nodes_1based": nodes[:40], "nodes": r["flagged"][:40], "known_keys": r["known_keys"],
+                            "what": "the observer computes a value that is determined by the other parties' secrets and the randomness the observer holds, and that differs between the two input vectors",
+                            "how": "cc-conform detleak <job> <out>; spec/DetLeakTrace.tla"})
     for r in (sel[1] + sel[2])[:5]:
         chk.sample(dict(mc.describe(r), mpc_nodes=len(r["mpc"]), tape_bits=mc.tape_bits(r, 1)[0],
                         sends=sum(len(n["sends"]) for n in r["mpc"])))
@@ -64,4 +86,5 @@ def run(chk):
         "PRF idealised as a random function of (key, counter, type); junk held by non-owners fixed to zero",
         "exact view distributions only for graphs whose input x tape space fits the budget (bit-typed graphs and Z_2/Z_4 images of ring-only graphs); larger protocols (A2B, B2A, sort, join) are outside this check",
         "three-party runtime semantics as defined in spec/ABY3Run.tla",
+        "wide phase: a necessary condition of Private only (values the observer computes that are determined by secrets and its own randomness); observers that are output parties and already shared inputs are not part of it; a private protocol is flagged with probability at most 2*4^-R per store value (R runs per input vector)",
     ]
